@@ -167,6 +167,10 @@ class QueueView:
         self.cap = z3.And(store, self.n_c + self.n_p == self.k)
         self.data = data
         c.set_next(self.wit, z3.If(self.cap, data, self.wit))
+        # where the witness entry went (observer's bookkeeping: the write position at the time of the store)
+        cw = self.ts.sig("fifo.current_write_pointer")
+        self.wit_addr = c.ghost("wit_addr", cw.size())
+        c.set_next(self.wit_addr, z3.If(self.cap, cw, self.wit_addr))
         self.pending_sound = pending_sound
 
     def track_previous_entry(self, init):
@@ -175,6 +179,9 @@ class QueueView:
         self.wit_prev = c.ghost("wit_prev", self.width, init=init)
         self.cap_prev = z3.And(self.store, self.n_c + self.n_p == self.k - 1)
         c.set_next(self.wit_prev, z3.If(self.cap_prev, self.data, self.wit_prev))
+        cw = self.ts.sig("fifo.current_write_pointer")
+        self.wit_prev_addr = c.ghost("wit_prev_addr", cw.size())
+        c.set_next(self.wit_prev_addr, z3.If(self.cap_prev, cw, self.wit_prev_addr))
 
     def invariants(self):
         c, ts, f, D = self.c, self.ts, self.fifo, self.D
@@ -198,12 +205,15 @@ class QueueView:
         live = z3.ULT(off, self.unread + z3.If(self.pending_sound, self.n_p, bvc(0, CW)))
         a = z(cr) + off
         a = z3.If(z3.UGE(a, N), a - N, a)
-        inv("fifo_witness_entry_in_place", z3.Implies(live, z3.Select(mem, z3.Extract(aw - 1, 0, a)) == self.wit))
+        # split in two so that the solver never mixes the modular position arithmetic with the array reasoning
+        inv("fifo_witness_position", z3.Implies(live, z(self.wit_addr) == a))
+        inv("fifo_witness_entry_in_place", z3.Implies(live, z3.Select(mem, zx(self.wit_addr, aw)) == self.wit))
         self.live = live
         if self.wit_prev is not None:
             off2 = self.k - 1 - self.n_r
             live2 = z3.ULT(off2, self.unread + z3.If(self.pending_sound, self.n_p, bvc(0, CW)))
             a2 = z(cr) + off2
             a2 = z3.If(z3.UGE(a2, N), a2 - N, a2)
-            inv("fifo_previous_witness_entry_in_place", z3.Implies(live2, z3.Select(mem, z3.Extract(aw - 1, 0, a2)) == self.wit_prev))
+            inv("fifo_previous_witness_position", z3.Implies(live2, z(self.wit_prev_addr) == a2))
+            inv("fifo_previous_witness_entry_in_place", z3.Implies(live2, z3.Select(mem, zx(self.wit_prev_addr, aw)) == self.wit_prev))
             self.live_prev = live2
